@@ -276,8 +276,17 @@ def main(argv):
     for name, measured, floor in res.floors:
         if measured < floor:
             res.errors.append("floor not met: %s = %d < %d (a rule instance set shrank; the check would be vacuous)" % (name, measured, floor))
+    seen_e = set()
+    uniq = []
     for e in res.errors:
-        print("CHECKER-ERROR property=%s %s" % (prop, e))
+        if e not in seen_e:
+            seen_e.add(e)
+            uniq.append(e)
+    res.errors = uniq
+    for e in res.errors[:12]:
+        print("CHECKER-ERROR property=%s %s" % (prop, e[:600]))
+    if len(res.errors) > 12:
+        print("CHECKER-ERROR property=%s ... and %d more" % (prop, len(res.errors) - 12))
     ev = {
         "property_id": prop,
         "tier": tier if tier in ("quick", "thorough") else "quick",
